@@ -67,6 +67,8 @@ func Selftest() int {
 	expectViolation("Ocsp.tla with KeyBy = subject (subject + serial as cache key)", ocspMut("absolute", "subject"), "KeyRight")
 	expectViolation("Refresher.tla with DropWhenBusy = TRUE (a tick that meets a taken mutex is dropped)", tlcrun.Options{SpecDir: sd, Module: "Refresher", Config: "MC_Refresher_drop.cfg", Workers: 2}, "BoundedRefresh")
 	expectViolation("Refresher.tla with LeakOnSibling = TRUE (cleaning up a failed sibling leaks the refresh mutex)", tlcrun.Options{SpecDir: sd, Module: "Refresher", Config: "MC_Refresher_leak.cfg", Workers: 2}, "Live")
+	expectViolation("Loaders.tla with NoRecheck = TRUE (the background load activates whatever it staged)", tlcrun.Options{SpecDir: sd, Module: "Loaders", Config: "MC_Loaders_norecheck.cfg", Workers: 2}, "NoRollback")
+	expectViolation("Loaders.tla with TryRead = TRUE (a lookup does not wait for a writer and answers 'not revoked')", tlcrun.Options{SpecDir: sd, Module: "Loaders", Config: "MC_Loaders_tryread.cfg", Workers: 2}, "LookupSound")
 	expectViolation("CrlRepo.tla with LoadedBeforeSwap (the entry is marked loaded before a swap that then fails)", tlcrun.Options{SpecDir: sd, Module: "CrlRepo", Config: "MC_CrlRepo_loadedfirst.cfg", Workers: 4}, "CrashSafe")
 	expectViolation("LockOrder.tla with Registered = TRUE (repository lock asked for under the entry lock)", tlcrun.Options{SpecDir: sd, Module: "LockOrder", Config: "MC_LockOrder_asis.cfg", Workers: 2}, "Ordered")
 	expectViolation("LockOrder.tla with Registered = TRUE: the deadlock itself", tlcrun.Options{SpecDir: sd, Module: "LockOrder", Workers: 2,
@@ -146,7 +148,7 @@ func Selftest() int {
 		}
 	}
 	// ---- 3. coverage: every action of the property configurations is taken ---------------------------
-	for _, cfg := range []struct{ mod, cfg string }{{"CrlStore", "MC_CrlStore_fault.cfg"}, {"CrlReader", "MC_CrlReader_fault.cfg"}, {"CrlRepo", "MC_CrlRepo.cfg"}, {"CrlRepo", "MC_CrlRepo_mem.cfg"}, {"Refresher", "MC_Refresher.cfg"}, {"EntryLocks", "MC_EntryLocks.cfg"}} {
+	for _, cfg := range []struct{ mod, cfg string }{{"CrlStore", "MC_CrlStore_fault.cfg"}, {"CrlReader", "MC_CrlReader_fault.cfg"}, {"CrlRepo", "MC_CrlRepo.cfg"}, {"CrlRepo", "MC_CrlRepo_mem.cfg"}, {"Refresher", "MC_Refresher.cfg"}, {"EntryLocks", "MC_EntryLocks.cfg"}, {"Loaders", "MC_Loaders.cfg"}} {
 		res := tlcrun.Run(tlcrun.Options{SpecDir: sd, Module: cfg.mod, Config: cfg.cfg, Workers: 4, Coverage: true})
 		// actions that are disabled by construction in that configuration (covered by the sibling configuration)
 		expectedZero := map[string]bool{"LMapSwap": cfg.cfg == "MC_CrlRepo.cfg", "TickDropped": cfg.mod == "Refresher"}
